@@ -311,6 +311,32 @@ def rule_histories(ctx, tci):
             inst = "selection.refused%s" % order if flabel == "'C-2'" else "selection.refused%s[%s]" % (order, flabel)
             ctx.check(ok, R, inst, repo.find_method(compci, "add_note").where(), "Composition.add_note(%s) to tracks [plain, guitar, plain] selected as %s" % (flabel, order), why)
 
+    # (g2b) the same for a selected track that has no room left in its unfinished bar (Track.add_notes reports False):
+    #       the request is refused as a whole and says so, it does not reach only the tracks that happen to have room
+    for flabel, mk in (("'C'", lambda it: "C"), ("None", lambda it: None), ("NoteContainer(['C', 'E'])", lambda it: new(it, nci, ["C", "E"])), ("['C', 'E']", lambda it: ["C", "E"])):
+        for order in ([0, 1], [1, 0]):
+            def go_room(it, mk=mk, order=order):
+                c = new(it, compci)
+                ts = [new(it, tci), new(it, tci), new(it, tci)]
+                for v in (2, 4, 8):
+                    it.call_method(ts[1], "add_notes", ["G", v], {}, None)   # 7/8 of the 4/4 bar used: a quarter does not fit
+                for t in ts:
+                    it.call_method(c, "add_track", [t], {}, None)
+                c.attrs["selected_tracks"] = list(order)
+                r = outcome(it, lambda: it.call_method(c, "add_note", [mk(it)], {}, None))
+                return r, [len(_flatten(t)[0]) for t in ts]
+            v, err = run1("track without room %s %s" % (order, flabel), go_room)
+            ok, why = err is None, err
+            if ok:
+                r, counts = v
+                if counts != [0, 3, 0]:
+                    ok, why = False, ("tracks selected %s: the track whose bar has an eighth left refuses the quarter, but the tracks now hold %s entries (before: [0, 3, 0]) -- "
+                                      "the note reached only a part of the selected tracks" % (order, counts))
+                elif r[0] == "return" and r[1] is not False:
+                    ok, why = False, "nothing was placed, but the request reports %r instead of False" % (r[1],)
+            ctx.check(ok, R, "selection.no-room%s[%s]" % (order, flabel), repo.find_method(compci, "add_note").where(),
+                      "Composition.add_note(%s) to tracks [empty, 7/8 full] selected as %s" % (flabel, order), why)
+
     # (g3) every form a track takes is taken by the composition for each selected track that has an instrument
     for flabel, mk, pitches in (("'C'", lambda it: "C", (48,)), ("['C', 'E']", lambda it: ["C", "E"], (48, 52)), ("[['C', 5]]", lambda it: [["C", 5]], (60,)),
                                 ("Note('D', 4)", lambda it: new(it, noteci, "D", 4), (50,)), ("NoteContainer(['C', 'G'])", lambda it: new(it, nci, ["C", "G"]), (48, 55))):
